@@ -1,11 +1,14 @@
 #!/bin/bash
-# tools/run_all.sh <quick|thorough> [ids...] : run checks in sequence against /repo, log exit codes and wall time
+# tools/run_all.sh <quick|thorough> [ids...] : run checks in sequence against /repo, log exit codes and wall time.
+# Thorough evidence is additionally kept under evidence/thorough/ (the per-property evidence file is
+# rewritten by whichever tier ran last).
 cd /verif
 TIER=${1:-quick}; shift
 IDS="$@"; [ -z "$IDS" ] && IDS=$(python3 -c "import json;print(' '.join(c['property_id'] for c in json.load(open('MANIFEST.json'))['checks']))")
 for id in $IDS; do
   t0=$(date +%s)
-  out=$(./vcheck $id --tier $TIER 2>&1 | grep -E "^property=|^VIOLATION|^KNOWN|^INCONCLUSIVE" | tail -5)
+  out=$(./vcheck $id --tier $TIER 2>&1 | grep -E "^property=|^VIOLATION|^KNOWN|^INCONCLUSIVE" | tail -8)
   echo "$id $TIER wall=$(( $(date +%s) - t0 ))s :: $(echo "$out" | grep '^property=' | tail -1)"
-  echo "$out" | grep -E "^VIOLATION|^INCONCLUSIVE" | head -3
+  echo "$out" | grep -E "^VIOLATION|^INCONCLUSIVE" | head -4
+  if [ "$TIER" = thorough ]; then mkdir -p evidence/thorough; cp evidence/$id.json evidence/thorough/$id.json; fi
 done
